@@ -124,16 +124,22 @@ func runDetect(in decIn) (out decOut) {
 // refLoop is the accounting the property states, executed with the real
 // detectOneMsg: runs are adjacent, in order, non-empty; bytes are carried to
 // the next read only when detectOneMsg asks for more.
-func refLoop(chunks [][]int) (msgs []string, widths []int) {
+// At the end of the input (the scripted error) nothing can complete an event any more: what is still held back is
+// decoded as it stands; so is a last chunk that arrives together with the error.
+func refLoop(chunks [][]int, errWithLast bool) (msgs []string, widths []int) {
 	defer func() {
 		if r := recover(); r != nil {
 			msgs = append(msgs, "PANIC "+fmt.Sprint(r))
 		}
 	}()
 	var left []byte
-	for _, c := range chunks {
+	chunks = append(append([][]int{}, chunks...), nil) // the final read: no bytes, the error
+	for k, c := range chunks {
 		b := append(append([]byte{}, left...), toBytes(c)...)
 		more := len(c) == 256
+		if k == len(chunks)-1 || (errWithLast && k == len(chunks)-2) {
+			more = false
+		}
 		i := 0
 		for i < len(b) {
 			w, m := tea.VerifDetectOneMsg(b[i:], more)
@@ -173,7 +179,7 @@ func runRead(in decIn) decOut {
 				refc <- refRes{}
 			}
 		}()
-		m, w := refLoop(in.Chunks)
+		m, w := refLoop(in.Chunks, in.ErrWithLast)
 		refc <- refRes{m, w}
 	}()
 	select {
